@@ -4,6 +4,6 @@ package vmm
 
 // Exported accessors for harnesses in other packages (kernel/goruntime drives the real EarlyReserveRegion).
 
-func VerifTempMappingAddr() uintptr            { return tempMappingAddr }
-func VerifSetEarlyReserveLastUsed(v uintptr)   { earlyReserveLastUsed = v }
-func VerifEarlyReserveLastUsed() uintptr       { return earlyReserveLastUsed }
+func VerifTempMappingAddr() uintptr          { return tempMappingAddr }
+func VerifSetEarlyReserveLastUsed(v uintptr) { earlyReserveLastUsed = v }
+func VerifEarlyReserveLastUsed() uintptr     { return earlyReserveLastUsed }
